@@ -69,17 +69,17 @@ LEAN_MODULES = ['Mistral.Props.C01', 'Mistral.Props.C01X', 'Mistral.Props.C01Cmd
 
 def correspond(ctx):
     from vlib import par
-    par.run_parallel(ctx, 'harness.core_stream', 'run_chunk', [{'n_programs': ctx.n(12, 400), 'mode': 'plain'}] * 9
-                     + [{'n_programs': ctx.n(12, 400), 'mode': 'mixed'}] * 5)
+    par.run_parallel(ctx, 'harness.core_stream', 'run_chunk', [{'n_programs': ctx.n(12, 150), 'mode': 'plain'}] * 9
+                     + [{'n_programs': ctx.n(12, 150), 'mode': 'mixed'}] * 5)
     par.run_parallel(ctx, 'harness.engine_stream', 'run_chunk',
-                     [{'n_programs': ctx.n(18, 500), 'props': ['C01'], 'mode': 'plain'}] * 14)
+                     [{'n_programs': ctx.n(18, 200), 'props': ['C01'], 'mode': 'plain'}] * 14)
     # liveness clause: theorem counter-witnesses replayed on the real engine + real runs with pause/resume on
     # small acyclic definitions (partial joins with successors, several activations) followed by the model
-    par.run_parallel(ctx, 'harness.live_stream', 'run_chunk', [{'n_programs': ctx.n(12, 350)}] * 14)
+    par.run_parallel(ctx, 'harness.live_stream', 'run_chunk', [{'n_programs': ctx.n(12, 120)}] * 14)
     # reverse workflows ("direct or reverse"): the real engine on generated reverse definitions vs Mistral.Reverse
     # after every event + the outcome / requires monitors (model and theorems: Props/C04Rev)
     par.run_parallel(ctx, 'harness.reverse_stream', 'run_chunk',
-                     [{'fn_programs': ctx.n(4, 80), 'rows_per_program': 6, 'engine_programs': ctx.n(8, 200)}] * 14)
+                     [{'fn_programs': ctx.n(4, 40), 'rows_per_program': 6, 'engine_programs': ctx.n(8, 80)}] * 14)
 
 
 def search(ctx):
